@@ -98,7 +98,8 @@ pub fn scenarios(tier: Tier) -> Vec<Scn> {
         for s in &small {
             for o in &small {
                 for src in ["e1", "e2", "script"] {
-                    if tier == Tier::Quick && src != "e1" && (a.len() + s.len() + o.len()) > 2 {
+                    let placed = [a, s, o].iter().filter(|l| !l.is_empty()).count();
+                    if tier == Tier::Quick && ((src != "e1" && (a.len() + s.len() + o.len()) > 1) || (placed == 3 && !(a.len() == 2 && s.len() == 1 && o.len() == 1))) {
                         continue;
                     }
                     add(true, a, s, o, src);
